@@ -303,6 +303,33 @@ theorem coverAD_latch (isCov : Rel) (depth depth' : Nat → Nat) (maxDepth maxDe
     (epsilonCoveringAD isCov depth maxDepth true S P).2.2 = true := by
   simp [epsilonCoveringAD]
 
+/-- **P-entry in VOGP_AD**: a design is new in `P` exactly when the gate is open (latch on, or all
+candidates at the maximum depth) and nothing active can still ε-cover it. -/
+theorem coverAD_new_iff (isCov : Rel) (depth : Nat → Nat) (maxDepth : Nat) (enabled : Bool)
+    (S P : List Nat) (i : Nat) :
+    (i ∈ (epsilonCoveringAD isCov depth maxDepth enabled S P).2.1 ∧ i ∉ P) ↔
+      ((enabled = true ∨ ∀ k ∈ S, depth k = maxDepth) ∧
+        i ∈ S ∧ i ∉ P ∧ ∀ j, (j ∈ S ∨ j ∈ P) → j ≠ i → isCov i j = false) := by
+  by_cases hg : enabled = true ∨ ∀ k ∈ S, depth k = maxDepth
+  · rw [coverAD_open isCov depth maxDepth enabled S P hg]
+    simp only [hg, true_and]
+    exact cover_new_iff isCov S P i
+  · have he : enabled = false := by
+      cases enabled with
+      | false => rfl
+      | true => exact absurd (Or.inl rfl) hg
+    have hd : ∃ k ∈ S, depth k ≠ maxDepth := by
+      apply Classical.byContradiction
+      intro h
+      apply hg
+      refine Or.inr (fun k hk => ?_)
+      apply Classical.byContradiction
+      intro hne; exact h ⟨k, hk, hne⟩
+    subst he
+    rw [coverAD_closed isCov depth maxDepth S P hd]
+    simp only [hg, false_and, iff_false, not_and, not_not]
+    exact fun h => h
+
 /-- non-vacuity: design 1 is one level short of the maximum depth: gate closed; with the latch on
 the same state moves both designs to `P` -/
 example : epsilonCoveringAD (fun _ _ => false) (fun i => if i = 1 then 1 else 2) 2 false [0, 1] []
